@@ -162,6 +162,19 @@ claim("C07",
       TRUST + "; tree shape assumed independent of letter case (re-checked per witness)",
       "DESIGN.md section 4 (C07)")
 
+claim("C11",
+      "Each of 14 small templates runs twice in one path space: baseline set order vs SYMBOLIC HASH RANKS (a free 8-bit rank per distinct "
+      "printed name; every iteration over a builtin set inside sqllineage.* - for, comprehensions, list(), next(iter()), sorted(), "
+      "set.pop, itertools.product - follows the ranks), one harness instance per kind of set permuted (tables/subqueries, columns, rest) "
+      "and, for small templates, all sets at once; names free as well. z3 decides over all rankings and namings that the canonical dump "
+      "(sorted tables, column paths, both exports as sets) is the same. A counterexample (naming + ranking) is rendered to SQL and run on "
+      "the unmodified library in fresh processes under PYTHONHASHSEED 0..15 (64 thorough) and reported only if two seeds disagree. "
+      "Accessor family: every ordered pair of the 7 accessors on one runner object vs a fresh runner.",
+      TRUST + "; set iteration inside networkx/sqlfluff is not permuted (seed replay only); the list ORDER of the export and its edge "
+      "numbering are not compared (they follow insertion order, which follows set order: observed to differ between seeds for every "
+      "script, see DESIGN.md); two open findings reported as KNOWN-FINDING (star over join with overlapping metadata column; multi-pair RENAME)",
+      "DESIGN.md section 2.7 and 4 (C11)")
+
 ALL = ["C%02d" % i for i in range(1, 19)]
 
 
